@@ -111,6 +111,20 @@ func c05EvalRoundTrip(w *mc.W, cas c05RT) {
 				fail("roundtrip-derivation-behaviour-differs", fmt.Sprintf("Child(%d): %v / %v", i, e1, e2))
 			}
 		}
+		// zeroing a parsed key must not reach into what a later parse of the same string returns
+		k2.Zero()
+		if k3, err := hdkeychain.NewKeyFromString(s); err != nil {
+			fail("own-string-rejected-after-an-earlier-parse-was-zeroed", err.Error())
+		} else {
+			if k3.String() != s {
+				fail("roundtrip-serialisation-differs-after-an-earlier-parse-was-zeroed", k3.String())
+			}
+			c1, e1 := k.Child(0)
+			c3, e3 := k3.Child(0)
+			if (e1 == nil) != (e3 == nil) || e1 == nil && c1.String() != c3.String() {
+				fail("roundtrip-derivation-behaviour-differs-after-an-earlier-parse-was-zeroed", fmt.Sprintf("Child(0): %v / %v", e1, e3))
+			}
+		}
 		if x.Private && x.K.BitLen() <= 248 {
 			w.Outcome("round trip: leading-zero scalar")
 			w.Nontrivial(mc.HashString(s))
